@@ -76,11 +76,15 @@ def _one(args):
             if vtype != "sympy" and k == 1:
                 N = min(N, 4)
             corner = "zero_block" if idx < 6 else "degenerate_fd" if idx < 12 and d >= 4 else \
-                "selective_last" if idx < 18 else None
+                "selective_last" if idx < 18 else "partial_tuple" if idx < 24 else None
             kw = {}
             if corner is not None or (vtype == "sympy" and d >= 4):
                 # exact sympy runs of 5x5 complex problems at order 5 take minutes
                 N = min(N, 4 if k == 1 else 3)
+            if corner == "partial_tuple":
+                kw = dict(sizes=rng.choice([[2, 2], [1, 2], [2, 3], [2, 1, 2], [3, 2]]), shuffle=False)
+                kw["d"] = sum(kw["sizes"])
+                d = kw.pop("d")
             if corner == "selective_last":
                 kw = dict(sizes=rng.choice([[1, 3], [2, 3], [1, 1, 3], [3, 3]]), shuffle=False)
                 kw["d"] = sum(kw["sizes"])
